@@ -52,10 +52,10 @@ static std::set<std::string> known_keys() {
 }
 
 // ---- storage callbacks
-struct Store { uint8_t mem[64]; int next_io; int reads, writes; };
+struct Store { uint8_t mem[64]; int next_io; int reads, writes; size_t r_off, r_size, w_off, w_size; bool w_data; };
 static Store g_store;
 static int st_read(const ascon_storage_t *, size_t offset, unsigned char *data, size_t size) {
-    ++g_store.reads;
+    ++g_store.reads; g_store.r_off = offset; g_store.r_size = size;
     int io = g_store.next_io;
     if (io == 2) return -1;
     size_t n = io == 1 ? size / 2 : size;
@@ -64,7 +64,7 @@ static int st_read(const ascon_storage_t *, size_t offset, unsigned char *data, 
     return (int)n;
 }
 static int st_write(const ascon_storage_t *, size_t offset, const unsigned char *data, size_t size, int) {
-    ++g_store.writes;
+    ++g_store.writes; g_store.w_off = offset; g_store.w_size = size; g_store.w_data = data != nullptr;
     int io = g_store.next_io;
     if (io == 2) return -1;
     size_t n = io == 1 ? size / 2 : size;
@@ -157,6 +157,8 @@ static Trace run_ops(const std::vector<POp> &ops, const Bytes &tape, const Bytes
             sg.read = st_read; sg.write = st_write;
             g_store.next_io = o.io == 3 ? 0 : o.io;
             int r0 = g_store.reads, w0 = g_store.writes;
+            uint8_t before_store[32];
+            memcpy(before_store, g_store.mem, 32);
             rc = o.kind == O_SAVE ? ascon_random_save_seed(st, &sg) : ascon_random_load_seed(st, &sg);
             bool io_ok = o.io == 0;
             // documented (random.h): zero if the seed was saved / loaded, -1 if non-volatile storage failed
@@ -171,6 +173,13 @@ static Trace run_ops(const std::vector<POp> &ops, const Bytes &tape, const Bytes
                 else tr.error = at + "returned " + std::to_string(rc) + " but the header documents " + std::to_string(want) + " when the storage " + (io_ok ? "succeeds" : "fails") + " [key=" + key + "]";
             }
             if (check_invariants && tr.error.empty() && o.io == 3 && (g_store.reads != r0 || g_store.writes != w0)) tr.error = at + "touched a storage region smaller than the seed [key=seed:small-region-touched]";
+            if (check_invariants && tr.error.empty() && o.io == 0) {
+                // documented: the seed is 32 bytes at offset zero of the region; load_seed then saves a NEW seed over it
+                if (g_store.writes != w0 + 1 || g_store.w_off != 0 || g_store.w_size != 32 || !g_store.w_data) tr.error = at + "expected one write of the 32-byte seed at offset 0, saw " + num(g_store.writes - w0) + " write(s), last at offset " + num(g_store.w_off) + " size " + num(g_store.w_size) + " [key=seed:write-shape]";
+                else if (o.kind == O_LOAD && (g_store.reads != r0 + 1 || g_store.r_off != 0 || g_store.r_size != 32)) tr.error = at + "expected one read of 32 bytes at offset 0 [key=seed:read-shape]";
+                else if (o.kind == O_LOAD && memcmp(g_store.mem, before_store, 32) == 0) tr.error = at + "the stored seed was not replaced by a new one after loading it [key=load_seed:no-resave]";
+                else if (o.kind == O_SAVE && g_store.reads != r0) tr.error = at + "save_seed read from the storage [key=seed:read-shape]";
+            }
             break; }
         case O_RANDOM: {
             Buf b((size_t)(o.n % 300), 0xA5);
@@ -179,6 +188,8 @@ static Trace run_ops(const std::vector<POp> &ops, const Bytes &tape, const Bytes
             if (check_invariants && tr.error.empty()) {
                 if (tape_sys_calls() != c0 + 1) tr.error = at + "made " + num(tape_sys_calls() - c0) + " system-source calls [key=ascon_random:calls]";
                 else if ((rc != 0) != healthy(c0)) tr.error = at + "returned " + std::to_string(rc) + " with a " + (healthy(c0) ? "healthy" : "failed") + " source [key=ascon_random:status]";
+                else if (out.size() >= 16 && (size_t)(c0 + 1) * 32 <= tape.size() && std::search(tape.begin() + c0 * 32, tape.begin() + (c0 + 1) * 32, out.begin(), out.begin() + 16) != tape.begin() + (c0 + 1) * 32)
+                    tr.error = at + "the output contains raw bytes of the system source (documented: processed with ASCON-XOF first) [key=ascon_random:raw-output]";
             }
             break; }
         case O_REINIT: {
@@ -272,7 +283,40 @@ static std::string check_prng(const KV &c) {
         if (j < t1.init_calls) from = 0;
         else for (size_t i = 0; i < ops.size(); ++i) if (j >= t1.calls[i].first && j < t1.calls[i].second) { if (ops[i].kind == O_RANDOM) only_random_op = (int)i; else from = (int)i; }
     }
-    Trace t3 = run_ops(ops3, tape3, status, store, false, known);
+    // 2b. a stored seed that is loaded is data fed by the caller: flip one bit of the initial storage contents when
+    //     the first successful storage operation is a load (nothing has overwritten the region before it)
+    Bytes store3 = store;
+    if ((flip & 0x30) == 0x30) {
+        int first = -1;
+        for (size_t i = 0; i < ops.size() && first < 0; ++i) {
+            if (ops[i].kind == O_REINIT) break;
+            // any save or load may write to the region (a failed load still saves a fresh seed), except with a too-small region
+            if ((ops[i].kind == O_SAVE || ops[i].kind == O_LOAD) && ops[i].io != 3) { if (ops[i].kind == O_LOAD && ops[i].io == 0) first = (int)i; break; }
+        }
+        if (first >= 0 && ops[first].kind == O_LOAD) {
+            uint64_t bit = (flip >> 8) % 256;
+            store3[bit / 8] ^= (uint8_t)(1u << (bit % 8));
+            tape3 = tape; ops3 = ops; fed_flipped = true; only_random_op = -1;
+            from = first + 1;
+            runner().tag("influence-of-a-loaded-seed");
+        }
+    }
+    // 2c. an empty feed "stirs" the pool: the same history without it must give different later output
+    if ((flip & 0x30) == 0x10 && from != -2) {
+        for (size_t i = 0; i < ops.size(); ++i) if (ops[i].kind == O_FEED && ops[i].data.empty()) {
+            std::vector<POp> without(ops.begin(), ops.begin() + i);
+            without.insert(without.end(), ops.begin() + i + 1, ops.end());
+            Trace t4 = run_ops(without, tape, status, store, false, known);
+            runner().tag("empty-feed-stirs");
+            for (size_t j = i + 1; j < ops.size(); ++j) {
+                if (ops[j].kind == O_REINIT) break;
+                if (ops[j].kind == O_FETCH && t1.outputs[j].size() >= 16 && t1.outputs[j] == t4.outputs[j - 1])
+                    return "step " + num(j + 1) + " fetch of " + num(t1.outputs[j].size()) + " bytes is the same with and without the empty feed at step " + num(i + 1) + " (documented: a zero-length feed stirs the pool) [key=influence:empty-feed]";
+            }
+            break;
+        }
+    }
+    Trace t3 = run_ops(ops3, tape3, status, store3, false, known);
     if (only_random_op >= 0) {
         if (t1.outputs[only_random_op].size() >= 16 && t1.outputs[only_random_op] == t3.outputs[only_random_op]) return "step " + num(only_random_op + 1) + " ascon_random: a flipped system-source bit did not change the " + num(t1.outputs[only_random_op].size()) + "-byte output [key=influence:ascon_random]";
         return "";
@@ -282,7 +326,7 @@ static std::string check_prng(const KV &c) {
         if (ops[i].kind == O_REINIT) break;   // a fresh generator does not depend on the old one
         if (ops[i].kind != O_FETCH) continue;
         if (t1.outputs[i].size() >= 16 && t1.outputs[i] == t3.outputs[i])
-            return "step " + num(i + 1) + " fetch of " + num(t1.outputs[i].size()) + " bytes is unchanged after flipping one bit of " + (fed_flipped ? "the data fed" : "a system-source byte consumed") + " at step " + num(from) + " [key=influence:" + (fed_flipped ? "feed" : "system") + "]";
+            return "step " + num(i + 1) + " fetch of " + num(t1.outputs[i].size()) + " bytes is unchanged after flipping one bit of " + (fed_flipped ? "the data fed" : "a system-source byte consumed") + " at step " + num(from) + " [key=influence:" + (store3 != store ? "loaded-seed" : fed_flipped ? "feed" : "system") + "]";
     }
     return "";
 }
